@@ -11,7 +11,7 @@ import (
 // The server read loop: a datagram that fills the inbound buffer (n >= InboundMTU) may be truncated and
 // is dropped, never handled; a shorter one is handled exactly as received.
 //
-//verif:props=C05,C09,C19 unwind=20 bounds="InboundMTU 1..64 (symbolic); one 20-byte Binding request delivered with UDP truncation semantics or by a stream framer (n = frame size even when the buffer is shorter), then the socket closes"
+//verif:props=C05,C09,C19 unwind=20 bounds="InboundMTU 1..64 (symbolic); one 20-byte Binding request delivered with UDP truncation semantics or by a stream framer (n = frame size even when the buffer is shorter), then the socket closes; optionally an empty datagram first"
 func VerifHarness_C05_inbound_mtu() {
 	mtu := vIntRange(1, 64)
 	env := allocation.VNewManager(false, false)
@@ -25,11 +25,16 @@ func VerifHarness_C05_inbound_mtu() {
 	src := allocation.VUDPAddr4()
 	conn := &allocation.VPacketConn{Name: "listen", Local: allocation.VUDPAddr4(),
 		Script: []allocation.VDatagram{{Data: m.Raw, From: src}}}
+	if vBool() {
+		// an empty UDP datagram (legal input from anybody) comes first: the listener goes on serving
+		conn.Script = append([]allocation.VDatagram{{Data: []byte{}, From: allocation.VUDPAddr4()}}, conn.Script...)
+	}
 	conn.Stream = vBool() // TCP/TLS listeners read through proto.STUNConn
 	s.readLoop(conn, env.M, nil)
 	whole := 20 < mtu
 	if whole {
 		vAssert(len(conn.Writes) == 1, "C05.datagram_that_fits_is_handled")
+		vAssert(len(conn.Writes) == 1, "C09.listener_keeps_serving_after_an_empty_datagram")
 		vAssert(conn.Writes[0].Addr == net.Addr(src), "C19.response_goes_to_the_request_source")
 	} else {
 		vAssert(len(conn.Writes) == 0, "C05.possibly_truncated_datagram_is_dropped_not_handled")
